@@ -58,7 +58,7 @@ func evalC06(cs *c06Case) (vs []*Violation, outcome string) {
 	buf, bs, hasCLen := cs.render()
 	add := func(rule, class, detail string) {
 		c := mkCase("C06", "ParseSIPMsg", &Cfg{Flags: uint(cs.Flags), Offs: cs.Offs, HdrCap: -1, ValCap: -1}, buf, nil)
-		c.Extra = map[string]any{"case": cs}
+		c.Extra = map[string]any{"case": *cs} // a copy: callers re-use their case variables
 		vs = append(vs, &Violation{Property: "C06", Site: "ParseSIPMsg", Rule: rule, Class: class, Detail: detail, Case: c})
 	}
 	defer recoverTo3(add)
@@ -180,7 +180,7 @@ func evalC06Pipe(p *c06Pipe) (vs []*Violation) {
 	buf := []byte(sb.String())
 	add := func(rule, class, detail string) {
 		c := mkCase("C06pipe", "ParseSIPMsg", &Cfg{Flags: uint(p.Flags), HdrCap: -1, ValCap: -1}, buf, nil)
-		c.Extra = map[string]any{"pipe": p}
+		c.Extra = map[string]any{"pipe": *p}
 		vs = append(vs, &Violation{Property: "C06", Site: "ParseSIPMsg", Rule: rule, Class: class, Detail: detail, Case: c})
 	}
 	defer recoverTo3(add)
